@@ -92,7 +92,11 @@ T_NEW = 2 * (2200000000 - BASE_S)      # year 2039: newer than anything the wall
 
 def table_manifest(case, variant):
     nouts = case["nouts"]
-    tcmd = "echo T >> runlog; test ! -e Tfail && cat e1 e2 > out1" + (" && cat e1 > out2" if nouts == 2 else "")
+    mode = case.get("inputs", "normal")      # normal | epoch0 (inputs stamped 0.0) | none (no input at all) | oo_only (only an order-only input)
+    if mode in ("none", "oo_only"):
+        tcmd = "echo T >> runlog; test ! -e Tfail && echo made > out1" + (" && echo made > out2" if nouts == 2 else "")
+    else:
+        tcmd = "echo T >> runlog; test ! -e Tfail && cat e1 e2 > out1" + (" && cat e1 > out2" if nouts == 2 else "")
     if variant == 2:
         tcmd += " && true v2"
     lines = ["rule T", "  command = " + tcmd]
@@ -111,7 +115,7 @@ def table_manifest(case, variant):
         # (the command line does not mention $in, so only the declared inputs differ)
         b = "build out1%s: T e2 e1" % (" out2" if nouts == 2 else "")
     else:
-        b = "build out1%s: T e1 e2" % (" out2" if nouts == 2 else "")
+        b = "build out1%s: T%s" % (" out2" if nouts == 2 else "", "" if mode in ("none", "oo_only") else " e1 e2")
         if case["imp"] != "none":
             b += " | imp"
         if case["oo"] != "none":
@@ -126,11 +130,15 @@ def table_case(llb, d, case):
     J = lambda n: os.path.join(d, n)
     outs = ["out1", "out2"][:case["nouts"]]
     prior = case["prior"]
+    mode = case.get("inputs", "normal")
     put(J("e1"), "e1\n", T_OLD)
     put(J("usrc"), "usrc\n", T_USRC)
     put(J("osrc"), "osrc\n", T_USRC)
     if not case["e2"].startswith("up_"):
         put(J("e2"), "e2\n", T_OLD)
+    if mode == "epoch0":
+        os.utime(J("e1"), ns=(0, 0))
+        os.utime(J("e2"), ns=(0, 0))
     if case["imp"] != "none":
         put(J("imp"), "imp\n", T_OLD)
     if case["oo"] != "none" and not case["oo"].startswith("up_"):
@@ -212,9 +220,11 @@ def table_case(llb, d, case):
         changed["imp"] = 0
         changed["oo"] = 0
     # outputs relative to the newest logical stamp among the delivered inputs
-    req = ["e1", "e2"] + (["imp"] if case["imp"] != "none" else [])
+    req = ([] if mode in ("none", "oo_only") else ["e1", "e2"]) + (["imp"] if case["imp"] != "none" else [])
     lm = [mtime(J(n)) for n in req]
-    newest = max([m for m in lm if m is not None] + [tick_ns(1)])
+    newest = max([m for m in lm if m is not None] + [0])
+    if newest == 0:
+        newest = tick_ns(1) if case["outs"] != ["equal"] else 0
     for o, st in zip(outs, case["outs"]):
         if st == "untouched":
             continue
@@ -245,8 +255,9 @@ def table_case(llb, d, case):
             return upstream_value(name, kind, letter, failflag)
         return "M" if pre[name] == "M" else "E=" + pre[name]
 
-    ins = ["e%d=E=%s" % (changed["e1"], pre["e1"]) if pre["e1"] != "M" else "e1=M",
-           "e%d=%s" % (changed["e2"], value("e2", case["e2"], "U", "Ufail"))]
+    ins = [] if mode in ("none", "oo_only") else [
+        "e%d=E=%s" % (changed["e1"], pre["e1"]) if pre["e1"] != "M" else "e1=M",
+        "e%d=%s" % (changed["e2"], value("e2", case["e2"], "U", "Ufail"))]
     if case["imp"] != "none":
         ins.append("i%d=%s" % (changed["imp"], value("imp", case["imp"], "", "")))
     if case["oo"] != "none":
@@ -258,7 +269,7 @@ def table_case(llb, d, case):
     cancelled = 1 if (upstream_failed and not case["k0"]) else 0
     ctx = "%d0%d" % (1 if case["strict"] else 0, cancelled)
     cmd = "%d:%d0%d%d" % (variant, 1 if case["generator"] else 0, 0, 1 if case["restat"] else 0)
-    req_line = "step %s %s %s %s %s" % (ctx, cmd, prior_val, ",".join(ins), ";".join(pre[o] for o in outs))
+    req_line = "step %s %s %s %s %s" % (ctx, cmd, prior_val, ",".join(ins) if ins else ".", ";".join(pre[o] for o in outs))
     return dict(request=req_line, ran=ran, rc=rc, executed=("T" in ran),
                 cannot_build=("cannot build 'out1' due to missing input" in txt), text=txt[-800:], log=log,
                 pre=pre, ins=ins, cancelled=cancelled)
@@ -296,6 +307,8 @@ def table_oracle(case, ob):
         return "run", "an output is older than a non order-only input"
     if case["strict"] and any(ts(o) <= t for o in outs for t in in_ts):
         return "run", "--strict: an output is not newer than a non order-only input"
+    if any(ts(o) == (0, 0) for o in outs):
+        return None, ""          # an output stamped 0.0 equals the initial newestModTime {0,0}: --strict re-runs it, unspecified
     if case["prior"] == "ok" and all(ts(o) > t for o in outs for t in in_ts):
         return "norun", "unchanged command, every output newer than every non order-only input"
     return None, ""
@@ -329,6 +342,15 @@ def table_cases(chk):
     for o1 in OUT_STATES:
         for o2 in OUT_STATES:
             core.append(dict(prior="ok", generator=0, strict=0, restat=0, nouts=2, outs=[o1, o2], e2="src_old", imp="none", oo="none", k0=0))
+    # commands without any delivered input: no input at all, only an order-only input, inputs stamped 0.0 (newestModTime
+    # stays {0,0}); a deleted output (also one of two) must re-run them in both modes
+    for mode in ("none", "oo_only", "epoch0"):
+        for prior in ("ok", "none", "ok_otherhash", "failed"):
+            for strict in (0, 1):
+                for gen in (0, 1):
+                    for outs in (["untouched"], ["missing"], ["fresh"], ["equal"], ["untouched", "missing"], ["missing", "untouched"], ["fresh", "missing"]):
+                        core.append(dict(prior=prior, generator=gen, strict=strict, restat=0, nouts=len(outs), outs=list(outs), e2="src_old", imp="none",
+                                         oo=("src_old" if mode == "oo_only" else "none"), k0=0, inputs=mode))
     # deviations of the current code that the table must reach
     core.append(dict(prior="failed", generator=1, strict=0, restat=0, nouts=1, outs=["fresh"], e2="src_old", imp="none", oo="none", k0=0))
     core.append(dict(prior="ok", generator=0, strict=0, restat=0, nouts=1, outs=["fresh"], e2="missing", imp="none", oo="none", k0=0))
@@ -341,9 +363,21 @@ def table_cases(chk):
         extra.append(dict(prior=rng.choice(PRIORS), generator=rng.choice([0, 0, 1]), strict=rng.choice([0, 0, 1]), restat=rng.choice([0, 0, 1]),
                           nouts=nouts, outs=[rng.choice(OUT_STATES) for _ in range(nouts)], e2=rng.choice(E2_KINDS),
                           imp=rng.choice(IMP_KINDS), oo=rng.choice(OO_KINDS), k0=rng.choice([0, 0, 1])))
+        if rng.random() < 0.15:
+            e = extra[-1]
+            e["inputs"] = rng.choice(["none", "oo_only", "epoch0"])
+            e.update(e2="src_old", imp="none")
+            if e["prior"] in ("skipped", "ok_rewired"):
+                e["prior"] = "ok"
+            if e["inputs"] == "oo_only" and e["oo"] == "none":
+                e["oo"] = "src_old"
+            if e["inputs"] == "none":
+                e["oo"] = "none"
+            e["outs"] = [o if o in ("untouched", "missing", "fresh") else "fresh" for o in e["outs"]]
     if chk.quick():
         # the quick tier keeps the named cases and a stratified half of the systematic core
-        keep = [c for i, c in enumerate(core) if i % 2 == 0 or c["prior"] in ("failed", "ok_rewired") or c["e2"] == "missing"]
+        keep = [c for i, c in enumerate(core) if i % 2 == 0 or c["prior"] in ("failed", "ok_rewired") or c["e2"] == "missing"
+                or (c.get("inputs", "normal") != "normal" and c["prior"] == "ok" and "missing" in c["outs"])]
         core = keep
     seen, cases = set(), []
     for c in core + extra:
@@ -355,7 +389,7 @@ def table_cases(chk):
 
 
 def case_key(c):
-    return (c["prior"], c["generator"], c["strict"], c["restat"], c["nouts"], tuple(c["outs"]), c["e2"], c["imp"], c["oo"], c["k0"])
+    return (c["prior"], c["generator"], c["strict"], c["restat"], c["nouts"], tuple(c["outs"]), c["e2"], c["imp"], c["oo"], c["k0"], c.get("inputs", "normal"))
 
 
 def deviation(chk, key, what, replay):
@@ -378,13 +412,15 @@ def run_table(chk, llb, model, base):
     bad = [(c, r) for (c, r) in zip(cases, results) if "error" in r]
     if bad:
         chk.notes["table_setup_failures"] = [dict(case=c, error=r["error"], log=r.get("log"), text=r.get("text")) for (c, r) in bad[:5]]
-        chk.violation("table-setup", "%d decision-table scenarios could not be arranged (phase 1 did not behave as the scenario needs)" % len(bad),
-                      dict(examples=chk.notes["table_setup_failures"]), found_input=False, broken="c18 decision table harness")
+        setup_failure = ("table-setup", "%d decision-table scenarios could not be arranged (phase 1 did not behave as the scenario needs)" % len(bad),
+                         dict(examples=chk.notes["table_setup_failures"]))
     rc, mo, me = vlib.run_lines(model, [r["request"] for (c, r) in good], timeout=600)
     assert rc == 0 and len(mo) == len(good), (rc, me[-500:], len(mo), len(good))
     ndis = 0
     hist = {}
     deferred = []      # correspondence-only verdicts are registered last: verdicts that carry a failing input come first
+    if bad:
+        deferred.append(setup_failure)
     for (c, r), m in zip(good, mo):
         model_runs = (m == "Task Run")
         hist[m] = hist.get(m, 0) + 1
@@ -456,7 +492,7 @@ for f in $ins $hdrs; do
   if grep -qx FAILLATE "$f"; then late=1; fi
 done
 tmp=.tmp.$name
-{ echo "$name $tag"; cat $ins $hdrs; } > $tmp || { rm -f $tmp; exit 1; }
+{ echo "$name $tag"; cat /dev/null $ins $hdrs; } > $tmp || { rm -f $tmp; exit 1; }
 touched=""
 first=""
 for o in $outs; do
@@ -480,10 +516,12 @@ class Cmd:
         self.name, self.outs, self.exp, self.imp, self.oo = name, list(outs), list(exp), list(imp), list(oo)
         self.kind, self.hdrs, self.pool, self.tag = kind, list(hdrs), pool, 1
         self.undeclared = []          # files the command line reads although the manifest does not declare them (yet)
+        self.literal = None           # when set: the files the command line names, whatever class the manifest declares them in
 
     def copy(self):
         c = Cmd(self.name, self.outs, self.exp, self.imp, self.oo, self.kind, self.hdrs, self.pool)
         c.tag, c.undeclared = self.tag, list(self.undeclared)
+        c.literal = None if self.literal is None else list(self.literal)
         return c
 
 
@@ -508,6 +546,8 @@ class World:
 
     def files_read(self, c):
         """what the command line passes to cat: declared explicit+implicit FILE inputs, then undeclared reads"""
+        if c.literal is not None:
+            return list(c.literal)
         return [i for i in c.exp + c.imp if i not in self.phony] + c.undeclared
 
     def command_line(self, c):
@@ -640,13 +680,18 @@ def gen_world(rng):
         name = "c%d" % i
         outs = ["o%d" % i] + (["o%db" % i] if rng.random() < 0.25 else [])
         exp = rng.sample(avail, min(len(avail), rng.randint(1, 3)))
+        inputless = rng.random() < 0.12          # `build version.txt: stamp` / `build gen.h: mkhdr || something`
+        if inputless:
+            exp = []
         rest = [a for a in avail if a not in exp]
-        imp = rng.sample(rest, 1) if rest and rng.random() < 0.45 else []
+        imp = rng.sample(rest, 1) if rest and rng.random() < 0.45 and not inputless else []
         rest = [a for a in rest if a not in imp]
         oo = []
         if rng.random() < 0.45:
             oo = ["ord0"] if (rng.random() < 0.5 or not rest) else rng.sample(rest, 1)
         kind = rng.choice(["plain", "plain", "plain", "restat", "generator", "depfile"])
+        if inputless:
+            kind = rng.choice(["plain", "plain", "restat", "generator"])
         hdrs = rng.sample(["h0", "h1"], rng.randint(1, 2)) if kind == "depfile" else []
         if kind == "depfile":
             # the generated-header shape: a file named by the depfile that the manifest declares ORDER-ONLY
@@ -975,11 +1020,95 @@ def history(llb, d, seed, jobs, db, keep_going, with_ninja, want_clean):
     if not check_success_state("initial", ran):
         return findings + known, stats, notes, steps
     null_rebuild("after the initial build")
+    def reclassify():
+        """Manifest edits that move one input between explicit / implicit / order-only while the command line stays the
+        same (a literal command line naming the file), then an edit of that input: the command must see it (seed C18-3).
+        Returns False if a finding stops the history, None if not applicable."""
+        frozen = set(u for c in w.cmds for u in c.undeclared)
+        cands = []
+        for c in w.reachable():
+            if c.kind == "generator" or c.literal is not None:
+                continue
+            for cls in ("exp", "imp", "oo"):
+                for x in getattr(c, cls):
+                    if x in w.src and x.startswith("s") and x not in c.hdrs and x not in frozen and not (cls == "exp" and len(c.exp) == 1) \
+                            and (c.exp + c.imp + c.oo).count(x) == 1:
+                        cands.append((c, cls, x))
+        if not cands:
+            return None
+        c, cls, x = rng.choice(cands)
+        order = [k for k in ("exp", "imp", "oo") if k != cls]
+        rng.shuffle(order)
+        path = [cls, order[0]] + ([order[1]] if order[0] == "oo" else [])      # always ends in a class that triggers
+        stats["nontrivial"].add(("reclassify " + ">".join(path), jobs, db, keep_going))
+
+        def sync(tag):
+            for t in twins:
+                t.w = w
+                t.write_manifest()
+            rc, ran, txt, nran = build_all(tag)
+            if rc != 0:
+                findings.append(("build-failed", "the build after '%s' failed although no command can fail" % tag, rp(dict(ran=ran, text=txt[-1200:]))))
+                return None
+            return ran
+        c.literal = w.files_read(c) + ([x] if cls == "oo" else [])
+        if cls == "oo":
+            record("op", op="literal command line now reads the order-only input", cmd=c.name, node=x)
+            ran = sync("literal command line")
+            if ran is None or not check_success_state("literal command line", ran):
+                return False
+            null_rebuild("after making the command line literal")
+            if findings:
+                return False
+        cur = cls
+        for nxt in path[1:]:
+            getattr(c, cur).remove(x)
+            getattr(c, nxt).append(x)
+            record("op", op="reclassify", cmd=c.name, node=x, frm=cur, to=nxt, command_line="unchanged")
+            ran = sync("reclassify %s: %s -> %s" % (x, cur, nxt))
+            if ran is None:
+                return False
+            if c.name not in ran:
+                notes.append(dict(note="reclassifying %s of %s (%s -> %s, command line unchanged) did not re-run it (the hash covers the classes)" % (x, c.name, cur, nxt), seed=seed))
+            cur = nxt
+        # now the input is explicit or implicit: an edit must re-run the command and reach the output
+        w.src[x] = "%s q%d\n" % (x, len(steps))
+        for t in twins:
+            t.write_source(x, w.src[x])
+        record("op", op="edit the reclassified input", node=x, cmd=c.name, declared=cur)
+        ran = sync("edit after reclassify")
+        if ran is None:
+            return False
+        if c.name not in ran:
+            findings.append(("reclassified-input-edit-did-not-rerun", "input %s of %s was moved %s (command line unchanged) and then edited with a fresh mtime: the command "
+                             "was not executed (ran %s)" % (x, c.name, " -> ".join(path), ran), rp(dict(ran=ran, cmd=c.name, node=x, path=path))))
+            return False
+        if not check_success_state("edit after reclassify", ran):
+            return False
+        null_rebuild("after the edit of a reclassified input")
+        if findings:
+            return False
+        # back to a command line derived from the declaration
+        c.literal = None
+        ran = sync("command line derived again")
+        if ran is None or not check_success_state("command line derived again", ran):
+            return False
+        null_rebuild("after restoring the derived command line")
+        return not findings
+
     nops = rng.randint(5, 9)
     done = 0
     guard = 0
     while done < nops and guard < 60 and not findings:
         guard += 1
+        if rng.random() < 0.18:
+            r = reclassify()
+            if r is None:
+                continue
+            done += 1
+            if r is False:
+                break
+            continue
         op = apply_op(rng, w, twins, done)
         if op is None:
             continue
@@ -1231,6 +1360,49 @@ def scripted(llb, base):
                             "edited" if shape == "plain" else "regenerated from its edited source", log[2][1], obj), rpl(d, log, history=hist)))
         elif log[3][0] != 0 or log[3][1]:
             out.append(("null-build-runs", "generated-header scenario (%s): the immediate rebuild ran %s" % (shape, log[3][1]), rpl(d, log, history=hist)))
+    # -- reclassifying an input with an unchanged (literal) command line, all six directions, then editing it (seed C18-3):
+    #    declared explicit/implicit afterwards: the edit must re-run the command; declared order-only afterwards: it must not
+    decl = {"exp": "a.txt b.txt", "imp": "a.txt | b.txt", "oo": "a.txt || b.txt"}
+    for frm in ("exp", "imp", "oo"):
+        for to in ("exp", "imp", "oo"):
+            if frm == to:
+                continue
+            M = "rule join\n  command = cat a.txt b.txt > out.txt && echo out.txt >> runlog\nbuild out.txt: join %s\n"
+            d = sandbox("reclass-%s-%s" % (frm, to), M % decl[frm], {"a.txt": ("a-1\n", 10), "b.txt": ("b-1\n", 12)})
+            log = [build(llb, d, ["-j1"])]
+            open(os.path.join(d, "build.ninja"), "w").write(M % decl[to])
+            log.append(build(llb, d, ["-j1"]))
+            put(os.path.join(d, "b.txt"), "b-2\n", T_NEW)
+            log.append(build(llb, d, ["-j1"]))
+            content = open(os.path.join(d, "out.txt")).read() if os.path.exists(os.path.join(d, "out.txt")) else None
+            hist = ["build with `%s`" % decl[frm], "manifest: `%s` (command line unchanged)" % decl[to], "build", "edit b.txt (fresh mtime)", "build"]
+            if log[0][0] != 0 or log[1][0] != 0 or log[2][0] != 0:
+                out.append(("build-failed", "reclassify scenario %s -> %s: exit statuses %s" % (frm, to, [l[0] for l in log]), rpl(d, log, history=hist)))
+            elif to in ("exp", "imp") and (log[2][1] != ["out.txt"] or content != "a-1\nb-2\n"):
+                out.append(("reclassified-input-edit-did-not-rerun", "b.txt was moved from %s to %s input of `build out.txt` (command line unchanged) and then edited: the command "
+                            "was not re-run (ran %s), out.txt = %r, a clean build gives 'a-1\\nb-2\\n'" % (
+                                {"exp": "an explicit", "imp": "an implicit", "oo": "an order-only"}[frm], {"exp": "an explicit", "imp": "an implicit"}[to], log[2][1], content),
+                            rpl(d, log, history=hist)))
+            elif to == "oo" and log[2][1]:
+                out.append(("order-only-edit-reran", "b.txt was moved from %s to order-only and then edited: the build ran %s" % (frm, log[2][1]), rpl(d, log, history=hist)))
+    # -- commands without delivered inputs whose output is deleted (seed C18-4): no input at all / only an order-only input /
+    #    one of two outputs; default and --strict; consumers must find the file again
+    M = ("rule version\n  command = echo version-1 > $out && echo $out >> runlog\nrule header\n  command = echo generated-header > $out && echo $out >> runlog\n"
+         "rule two\n  command = echo one > two.a && echo two > two.b && echo two >> runlog\nrule join\n  command = cat $in > $out && echo $out >> runlog\n"
+         "build version.txt: version\nbuild gen.h: header || a.txt\nbuild two.a two.b: two\nbuild out.txt: join a.txt version.txt two.b | gen.h\n")
+    for strict in (0, 1):
+        for victim in ("version.txt", "gen.h", "two.b", "two.a"):
+            args = ["-j1"] + (["--strict"] if strict else [])
+            d = sandbox("noinput-%s-%d" % (victim, strict), M, {"a.txt": ("a-1\n", 10)})
+            log = [build(llb, d, args), build(llb, d, args)]
+            rm(os.path.join(d, victim))
+            log.append(build(llb, d, args))
+            hist = ["build", "build", "delete %s" % victim, "build%s" % (" --strict" if strict else "")]
+            if log[0][0] != 0 or log[1][0] != 0 or log[1][1]:
+                out.append(("null-build-runs", "input-less scenario: first builds %s" % [(l[0], l[1]) for l in log[:2]], rpl(d, log, history=hist)))
+            elif not os.path.exists(os.path.join(d, victim)) or log[2][0] != 0:
+                out.append(("delete-output-did-not-rerun", "the output %s of a command without explicit/implicit inputs was deleted: the next build did not re-create it "
+                            "(exit status %d, ran %s)" % (victim, log[2][0], log[2][1]), rpl(d, log, history=hist)))
     # -- restat: an upstream command that leaves its output untouched does not re-run its dependents; without restat it does
     for restat in (1, 0):
         M = ("rule MK\n  command = echo $out >> runlog; if [ ! -f $out ]; then cp $in $out; fi\n%srule CP\n  command = echo $out >> runlog; cp $in $out\n"
